@@ -33,6 +33,8 @@ def case_array(case):
         arr = big[sl]
     elif layout == 'readonly':
         arr.setflags(write=False)
+    elif layout == 'T' and arr.ndim >= 2:
+        arr = np.ascontiguousarray(arr.T).T          # same values and shape, transposed (Fortran-like) strides
     return arr
 
 
